@@ -49,6 +49,13 @@ def run_shard(spec, acc):
             if tops:
                 acc.count("relativised_statements", trees.relativise_all(tspec, rnd.choice(tops + [""]), rnd, prob=0.8))
         one_tree(tspec, acc, rnd, sample=(i % 9 == 0))
+        if i % 3 == 0:
+            # a project scanned in full, edited in place (same sizes, same time stamps), then scanned with a limit: the
+            # limited architecture is the quotient of the files as they are now
+            from .. import lazyscan
+
+            lazyscan.rescan_after_edit(rnd, acc, "C09", {"nodes": "C09", "edge-missing": "C09", "edge-extra": "C09"}, option_sets=({"level_limit": 1}, {"level_limit": 2}, {}), judged=lambda kw: "level_limit" in kw)
+            acc.count("limited_rescans_after_in_place_edit")
 
 
 def rules_above_limit(rnd, nodes, mpname, k, n=20):
@@ -127,11 +134,21 @@ def one_tree(tspec, acc, rnd, sample=False, forced=None):
                     limit_variants(root, mp_abs, mp_rel, mpname, k, total, lim, tspec, rnd, acc, forced)
                 # verdict preservation
                 cfgs = forced.get("cfgs") if forced and forced.get("cfgs") else rules_above_limit(rnd, lim.nodes, mpname, k)
+                lim_ev = lim.evaluable
+                if (forced and forced.get("copied")) or (not forced and rnd.random() < 0.3):
+                    # the flattened architecture went through copy.deepcopy / pickle before it is asked for verdicts
+                    from ..drive import copy_of
+
+                    how = forced["copied"] if forced else rnd.choice(["deepcopy", "pickle"])
+                    case = dict(case, copied=how)
+                    HUB.case = case
+                    lim_ev = copy_of(lim_ev, how)
+                    acc.count("limited_architectures_used_through_a_copy")
                 for cfg in cfgs:
                     cfg = dict(cfg, subs=[tuple(x) for x in cfg["subs"]], objs=[tuple(x) for x in cfg["objs"]])
                     HUB.case = dict(case, cfgs=[cfg])
                     o1, m1 = run(mk_rule(cfg), ev_full)
-                    o2, m2 = run(mk_rule(cfg), lim.evaluable)
+                    o2, m2 = run(mk_rule(cfg), lim_ev)
                     acc.evaluated()
                     acc.count("verdict_pairs")
                     acc.hist("verdict_pair_outcome", f"{o1}/{o2}")
@@ -197,7 +214,11 @@ def limit_variants(root, mp_abs, mp_rel, mpname, k, total, lim, tspec, rnd, acc,
 
 
 def replay(case, acc):
-    forced = {"mp": case["mp"], "k": case.get("k", 1), "cfgs": case.get("cfgs")}
+    if case.get("kind") == "rescan-after-edit":
+        from .. import lazyscan
+
+        return lazyscan.rescan_after_edit(random.Random(0), acc, "C09", {"nodes": "C09", "edge-missing": "C09", "edge-extra": "C09"}, forced=case, option_sets=({"level_limit": 1}, {"level_limit": 2}, {}), judged=lambda kw: "level_limit" in kw)
+    forced = {"mp": case["mp"], "k": case.get("k", 1), "cfgs": case.get("cfgs"), "copied": case.get("copied")}
     if case.get("variant"):
         forced["variant"] = case["variant"]
         if "ext" in case:
@@ -209,6 +230,10 @@ def floors(acc, tier):
     why = []
     if acc.counters["verdict_pairs"] < 1000:
         why.append(f"verdict pairs: {acc.counters['verdict_pairs']}")
+    if acc.counters["limited_architectures_used_through_a_copy"] < 20:
+        why.append(f"only {acc.counters['limited_architectures_used_through_a_copy']} flattened architectures used through a deepcopy / pickle copy")
+    if acc.counters["limited_rescans_after_in_place_edit"] < 10:
+        why.append("too few limited re-scans after an in-place edit")
     if acc.counters["self_edges_dropped"] < 10:
         why.append("too few self-edges dropped by truncation")
     h = acc.hists.get("verdict_pair_outcome", {})
